@@ -2407,6 +2407,17 @@ static void sr_unit(void *arg)
 {
     __atomic_fetch_add((int *)arg, 1, __ATOMIC_SEQ_CST);
 }
+/* a unit that blocks, is resumed later and still has scheduling points ahead */
+static ABT_eventual g_sr_ev;
+static int c_sr_blockers, c_sr_kind[5];
+static void sr_blocker(void *arg)
+{
+    VRT_ABT(ABT_eventual_wait(g_sr_ev, NULL));
+    int n = 1 + (int)(vrt_hash64((uint64_t)(uintptr_t)arg) % 3);
+    for (int i = 0; i < n; i++)
+        ABT_thread_yield();
+    __atomic_fetch_add((int *)arg, 1, __ATOMIC_SEQ_CST);
+}
 static void run_stackrace(vrt_rng *r, int idx)
 {
     VRT_ABT(ABT_init(0, NULL));
@@ -2421,22 +2432,32 @@ static void run_stackrace(vrt_rng *r, int idx)
     ABT_pool keep_pool[24];
     int nkeep = 0, nauto = 0;
     memset(g_sr_runs, 0, sizeof(g_sr_runs));
-    static const ABT_sched_predef pd[] = { ABT_SCHED_BASIC, ABT_SCHED_PRIO, ABT_SCHED_RANDWS, ABT_SCHED_DEFAULT };
+    static const ABT_sched_predef pd[] = { ABT_SCHED_BASIC, ABT_SCHED_PRIO, ABT_SCHED_RANDWS, ABT_SCHED_DEFAULT,
+                                           ABT_SCHED_BASIC_WAIT };
+    VRT_ABT(ABT_eventual_create(0, &g_sr_ev));
+    int nblockers = 0;
     for (int i = 0; i < ns; i++) {
         ABT_pool p;
         ABT_sched st;
         ABT_sched_config cfg;
         int automatic = (int)vrt_range(r, 2);
-        VRT_ABT(ABT_pool_create_basic(ABT_POOL_FIFO, ABT_POOL_ACCESS_MPMC, ABT_FALSE, &p));
+        int sk = (int)vrt_range(r, 5);
+        vrt_count(c_sr_kind[sk], 1);
+        VRT_ABT(ABT_pool_create_basic(pd[sk] == ABT_SCHED_BASIC_WAIT ? ABT_POOL_FIFO_WAIT : ABT_POOL_FIFO, ABT_POOL_ACCESS_MPMC,
+                                      ABT_FALSE, &p));
         int k = (int)vrt_range(r, 3);
         for (int j = 0; j < k && nu < 64; j++, nu++) {
-            if (vrt_range(r, 2))
+            unsigned what = (unsigned)vrt_range(r, 3);
+            if (what == 0) {
+                VRT_ABT(ABT_thread_create(p, sr_blocker, &g_sr_runs[nu], ABT_THREAD_ATTR_NULL, NULL));
+                nblockers++;
+            } else if (what == 1)
                 VRT_ABT(ABT_thread_create(p, sr_unit, &g_sr_runs[nu], ABT_THREAD_ATTR_NULL, NULL));
             else
                 VRT_ABT(ABT_task_create(p, sr_unit, &g_sr_runs[nu], NULL));
         }
         VRT_ABT(ABT_sched_config_create(&cfg, ABT_sched_config_automatic, automatic, ABT_sched_config_var_end));
-        VRT_ABT(ABT_sched_create_basic(pd[vrt_range(r, 4)], 1, &p, cfg, &st));
+        VRT_ABT(ABT_sched_create_basic(pd[sk], 1, &p, cfg, &st));
         VRT_ABT(ABT_sched_config_free(&cfg));
         VRT_ABT(ABT_pool_add_sched(host, st));
         keep_pool[i] = p;
@@ -2447,12 +2468,22 @@ static void run_stackrace(vrt_rng *r, int idx)
         if (vrt_range(r, 3) == 0)
             vrt_sleep_us(20);
     }
+    /* the blocked units are resumed a little later; their stacked schedulers
+     * must still be there (a blocked unit belongs to the pool) and must go on
+     * until these units have finished */
+    vrt_sleep_us(200 + (unsigned)vrt_range(r, 2000));
+    VRT_ABT(ABT_eventual_set(g_sr_ev, NULL, 0));
+    vrt_count(c_sr_blockers, (uint64_t)nblockers);
     for (int i = 0; i < nes; i++) {
+        vrt_call_begin("ABT_xstream_join of a stream that hosts stacked schedulers");
         VRT_ABT(ABT_xstream_join(xs[i]));
+        vrt_call_end();
         VRT_ABT(ABT_xstream_free(&xs[i]));
     }
     for (int i = 0; i < nu; i++)
-        VRT_CHECK(g_sr_runs[i] == 1, "stacked:not-exactly-once", "unit %d of a stacked scheduler ran %d times", i, g_sr_runs[i]);
+        VRT_CHECK(g_sr_runs[i] == 1, "stacked:not-exactly-once", "unit %d of a stacked scheduler ran %d times (units that "
+                  "block on an eventual, are resumed and yield are among them)", i, g_sr_runs[i]);
+    VRT_ABT(ABT_eventual_free(&g_sr_ev));
     /* every stacked scheduler has finished; the ones that are not automatic
      * are released by the user */
     for (int i = 0; i < nkeep; i++)
@@ -3435,6 +3466,15 @@ int main(int argc, char **argv)
         c_sr_scen = vrt_counter("stackrace_scenarios");
         c_sr_scheds = vrt_counter("stacked_schedulers_added");
         c_sr_units = vrt_counter("units_in_stacked_pools");
+        c_sr_blockers = vrt_counter("stacked_units_that_block_and_yield_after_resume");
+        {
+            static const char *kn[] = { "basic", "prio", "randws", "default", "basic_wait" };
+            for (int i = 0; i < 5; i++) {
+                char nm[64];
+                snprintf(nm, sizeof(nm), "stacked_scheduler_kind_%s", kn[i]);
+                c_sr_kind[i] = vrt_counter(nm);
+            }
+        }
         c_sr_nonauto = vrt_counter("stacked_schedulers_freed_by_user");
         c_sr_auto = vrt_counter("stacked_schedulers_automatic");
         int n = (int)vrt_arg_int("scenarios", 20);
